@@ -216,6 +216,8 @@ pub const VARIANT_SPARSE: u8 = 251;
 /// The failure was observed below two sibling states of one turn that were both rebuilt through the
 /// constructors and then advanced by the same step one right after the other, see `rebuilt_siblings_probe`.
 pub const VARIANT_SIBLINGS: u8 = 250;
+/// The failure was observed while a look-alike game was played alongside, see `lockstep_lookalike_probe`.
+pub const VARIANT_LOOKALIKE: u8 = 249;
 
 pub enum Source<'a> {
     Ops(&'a [(u16, u8)]),
@@ -738,6 +740,9 @@ pub fn observe_forks(eng: &GameState, mo: &Model, variants: &[u8], obs: &mut dyn
     if variants == [VARIANT_SPARSE] {
         return sparse_probe(eng, mo, obs, st).map_err(|f| (f, VARIANT_SPARSE));
     }
+    if variants == [VARIANT_LOOKALIKE] {
+        return lockstep_lookalike_probe(eng, mo, obs, st).map_err(|f| (f, VARIANT_LOOKALIKE));
+    }
     if variants == [VARIANT_SIBLINGS] {
         return rebuilt_siblings_probe(eng, mo, obs, st).map_err(|f| (f, VARIANT_SIBLINGS));
     }
@@ -965,6 +970,70 @@ pub fn sparse_probe(eng: &GameState, mo: &Model, obs: &mut dyn Obs, st: &mut Sta
         }
         st.bump("side_walks_with_unobserved_intermediate_states");
         obs.on_state(&View::new(&e, &m2, true), st).map_err(|f| Fail::new(&f.clause, format!("(after the side walk {} below the observed state, during which the intermediate states were asked for nothing but their action list) {}", actions_text(&path), f.detail)))?;
+    }
+    Ok(())
+}
+
+/// Lockstep with a look-alike game (turn starts): another game is started from the same squares and
+/// colours with the piece types of each colour rotated; both games then make the same steps of the turn
+/// alternately on this thread (only steps that are legal in both), each observed with its own model.
+pub fn lockstep_lookalike_probe(eng: &GameState, mo: &Model, obs: &mut dyn Obs, st: &mut Stats) -> Check {
+    if mo.setup || mo.step != 0 || mo.result_at_turn_start().is_some() {
+        return Ok(());
+    }
+    let tb = match type_permuted_twin(&mo.board) {
+        Some(t) => t,
+        None => return Ok(()),
+    };
+    if !tb.traps_legal() || !tb.within_complement() || tb.rabbit_on_goal(true) || tb.rabbit_on_goal(false) {
+        return Ok(());
+    }
+    let mut mb = Model::from_position(tb, mo.gold_to_move, mo.move_number);
+    if mb.result_at_turn_start().is_some() {
+        return Ok(());
+    }
+    let mut eb = match engine_from_position(&tb, mo.gold_to_move, mo.move_number) {
+        Ok(e) => e,
+        Err(_) => return Ok(()),
+    };
+    let (mut ea, mut ma) = (eng.clone(), mo.clone());
+    st.bump("lockstep_lookalike_games_started");
+    for depth in 1..=3usize {
+        let oa = guard(|| ea.valid_actions()).unwrap_or_default();
+        let ob = guard(|| eb.valid_actions()).unwrap_or_default();
+        let common: Vec<Action> = oa
+            .iter()
+            .filter(|x| ob.contains(x) && matches!(x, Action::Move(..)) && ma.offered().contains(&to_maction(x)) && mb.offered().contains(&to_maction(x)) && !ma.ends_turn(to_maction(x)) && !mb.ends_turn(to_maction(x)))
+            .cloned()
+            .collect();
+        if common.is_empty() {
+            break;
+        }
+        let x = common[(fp_combine(mo.board.fingerprint(), 0x77 + depth as u64) % common.len() as u64) as usize];
+        // the own game first, the look-alike right after it (and the other way round on the second step)
+        let kids = guard(|| {
+            if depth % 2 == 1 {
+                let a = ea.take_action(&x);
+                let b = eb.take_action(&x);
+                (a, b)
+            } else {
+                let b = eb.take_action(&x);
+                let a = ea.take_action(&x);
+                (a, b)
+            }
+        });
+        let (na, nb) = match kids {
+            Ok(k) => k,
+            Err(_) => return Ok(()),
+        };
+        if ma.apply(to_maction(&x)).is_err() || mb.apply(to_maction(&x)).is_err() {
+            return Ok(());
+        }
+        ea = na;
+        eb = nb;
+        let ctx = |f: Fail, who: &str| Fail::new(&f.clause, format!("({} game, {} steps into a turn that a look-alike game - same squares and colours, other piece types: [{}] - played alongside on the same thread, step for step) {}", who, depth, board_text(&tb), f.detail));
+        obs.on_state(&View::new(&eb, &mb, true), st).map_err(|f| ctx(f, "look-alike"))?;
+        obs.on_state(&View::new(&ea, &ma, true), st).map_err(|f| ctx(f, "own"))?;
     }
     Ok(())
 }
@@ -1310,6 +1379,13 @@ pub fn walk(
         }
         if opts.interfere && !mo.setup && mo.step == 0 && (fp_combine(aux, i as u64 ^ 0x5b5b) & 1) == 0 {
             if let Err((f, variant)) = observe_forks(&eng, &mo, &[VARIANT_SIBLINGS], obs, st) {
+                let mut t = trace.clone();
+                t.fork = Some(variant);
+                return Err(WalkFail { fail: f, trace: t, inconclusive: false });
+            }
+        }
+        if opts.interfere && !mo.setup && mo.step == 0 && (fp_combine(aux, i as u64 ^ 0x6a6a) & 1) == 1 {
+            if let Err((f, variant)) = observe_forks(&eng, &mo, &[VARIANT_LOOKALIKE], obs, st) {
                 let mut t = trace.clone();
                 t.fork = Some(variant);
                 return Err(WalkFail { fail: f, trace: t, inconclusive: false });
